@@ -1,2 +1,5 @@
 #!/bin/sh
-for p in C02 C04 C05 C06 C07 C12 C13 C15 C16 C17 C01 C08 C11; do bin/check $p --tier thorough 2>&1 | grep -v '^KNOWN-FINDING' ; done
+# thorough tier of the checks given as arguments (default: those whose generators or oracles changed last)
+cd "$(dirname "$0")/.."
+[ $# -gt 0 ] || set -- C11 C15 C16 C07 C13 C02
+for p in "$@"; do bin/check $p --tier thorough 2>&1 | grep -v '^KNOWN-FINDING' ; done
